@@ -63,8 +63,8 @@ def plan(tier):
     if tier == "thorough":
         return {"shards": 1, "params": {"max_candidates": 1200, "cap": 300000000, "measure_budget_s": 1500, "prescreen_budget_s": 600,
                                         "budget_s": 3000, "reach": False, "workers": 16}, "timeout_s": 4200}
-    return {"shards": 1, "params": {"max_candidates": 96, "cap": 100000000, "measure_budget_s": 110, "prescreen_budget_s": 90,
-                                    "budget_s": 400, "reach": False, "workers": 16}, "timeout_s": 900}
+    return {"shards": 1, "params": {"max_candidates": 64, "cap": 100000000, "measure_budget_s": 300, "prescreen_budget_s": 200,
+                                    "budget_s": 800, "reach": False, "workers": 16}, "timeout_s": 1500}
 
 
 # ---------------------------------------------------------------------------
@@ -312,6 +312,11 @@ def run_shard(ctx):
         ctx.starved("harvest child failed (rc=%s): %s" % (rc, log[-400:]))
         return
     patterns = hv["patterns"]
+    for st in hv.get("stalls", []):
+        ctx.monitor("stall", fired=True)
+        ctx.violation("stall", "no short input (a few dozen characters) can stall a caller", {"target": st["target"], "input": st["input"]},
+                      observed="interrupted after %.0f CPU seconds (native)" % st["cpu_s"], expected="microseconds",
+                      key=classify({"target": st["target"]}))
     ctx.monitor("harvest", n=len(patterns))
     ctx.note("harvest_events", hv["events"])
     ctx.note("patterns_harvested", [[p["pattern"], p["flags"], p["where"][:3]] for p in patterns])
@@ -370,6 +375,13 @@ def run_shard(ctx):
             ctx.starved("prescreen child %d screened only %d of %d families within its budget" % (k, data["screened"], data["of"]))
         for c in data["candidates"]:
             candidates[c["id"]] = c
+        for st in data.get("stalls", []):
+            fam = families[st["id"]]
+            ctx.monitor("stall", fired=True)
+            ctx.violation("stall", "no short input (a few dozen characters) can stall a caller",
+                          {"target": fam["target"], "input": st["input"]},
+                          observed="interrupted after %.0f CPU seconds (native)" % st["cpu_s"], expected="microseconds",
+                          key=classify(fam))
     ctx.note("families_prescreened", screened)
     ctx.note("prescreen_candidates", len(candidates))
     ctx.enumerated(screened)
@@ -387,7 +399,8 @@ def run_shard(ctx):
             break
     ctx.note("candidates_measured", len(chosen))
     ctx.note("candidates_not_measured_lower_suspicion", len(candidates) - len(chosen))
-    to_measure = sorted(set(chosen) | sentinel_ids)
+    # sentinels first (they must never be starved), then candidates by decreasing suspicion
+    to_measure = sorted(sentinel_ids) + [i for i in chosen if i not in sentinel_ids]
 
     # ---- 4 measure (callgrind) --------------------------------------------------------
     have_valgrind = subprocess.run(["sh", "-c", "command -v valgrind"], stdout=subprocess.PIPE).returncode == 0 and \
@@ -423,8 +436,8 @@ def run_shard(ctx):
             case = {"target": fam["target"], "prefix": fam["prefix"], "pump": fam.get("pump"), "blocks": fam.get("blocks"),
                     "suffix": fam["suffix"], "points": pts}
             if r["verdict"] == "unmeasured":
-                if r["id"] in sentinel_ids or r["id"] in chosen[:16]:
-                    ctx.starved("family %d not measured within the budget" % r["id"])
+                if r["id"] in sentinel_ids:
+                    ctx.starved("sentinel family %d not measured within the budget" % r["id"])
                 ctx.note_add("families_unmeasured")
                 continue
             grew = len(pts) >= 2 and pts[-1][1] is not None and pts[0][1] is not None and pts[-1][1] > 2 * max(pts[0][1], 1)
